@@ -110,7 +110,7 @@ def run(res, tier, rng):
             from ural.quote import upper_quoted
             q_in = upper_quoted(r0.query)      # normalize_url upper-cases the hex digits of escapes first (C02's spelling rule)
             if o["fix_common_mistakes"]:
-                q_in = re.sub(r"(?i)&amp(?:%3B|;)", "&", q_in)
+                q_in = re.sub(r"(?i)&(?:a|%[46]1)(?:m|%[46]D)(?:p|%[57]0)(?:%3B|;)", "&", q_in)
             items_in = [tuple(uq(x) for x in it.split("=", 1)) for it in q_in.split("&")] if q_in else []
             items_out = [tuple(it.split("=", 1)) for it in sp.query.split("&")] if sp.query else []
             pool = list(items_in)
